@@ -10,12 +10,14 @@ from harness.drivers import c03 as drv
 def run(tier: str) -> int:
     chk = Check("C03", tier)
     scs, n_emitted = c02.scenarios(tier, chk, 5000 if tier == "quick" else 50000)
-    hows = ["built", "read", "rated", "from_osu", "edit_rewrite", "unsorted_bpms", "rated_odd"]
+    hows = ["built", "read", "rated", "from_osu", "edit_rewrite", "unsorted_bpms", "rated_odd", "dup_tempo"]
     scns = []
     for i, s in enumerate(scs):
         if not s["objs"]:
             continue
         # objects of one column must not collide after snapping: the generator's cells are distinct by construction
+        if i % 9 == 2:
+            s = dict(s, type={"dance-single": "dance-couple", "dance-double": "dance-routine"}.get(s["type"], s["type"]))
         scns.append(dict(s, id=f"m{i}", how=hows[i % len(hows)], selectable=(i % 4 != 1), two_charts=(i % 6 == 0),
                          title=["Song", "a b", "日本"][i % 3]))
     # beyond the model: random sets with tempo changes anywhere on the 1/48-beat grid; their times come from the spec (SMCalc)
